@@ -5,6 +5,7 @@
      GRID <g>                   -> <scale = 1.0/|g|> <reported = 1.0/scale'>
      HP cx cy p0x p0y p1x p1y   -> <generated><hand model><exact class>   three 0/1 digits (integer scaled coordinates)
      HPH hx hy p0x p0y p1x p1y  -> the same with every ordinate in half units
+     HPP hx hy x y              -> <generated intersects(p)><half-open square>   (half units)
      PCHK <V|N> <op> <tn> <td> <en> <ed> <A> <B> <R> (N: validity not required) -> "1" | "0 valid=<b> sides=<..> verts=<..>"
      NEAR <tn> <td> <geom> <k> (x y w)*k        -> k digits: within tol of the point set of geom
      VAL <geom>                 -> "1" | "0 <rule code>"  *)
@@ -65,6 +66,7 @@ let () =
       let ((g, h), f) = hp_run (zs cx) (zs cy) (zs a) (zs b) (zs c) (zs d) in print_endline (b2s g ^ b2s h ^ b2s f)
     | ["HPH"; cx; cy; a; b; c; d] ->
       let ((g, h), f) = hp_run_half (zs cx) (zs cy) (zs a) (zs b) (zs c) (zs d) in print_endline (b2s g ^ b2s h ^ b2s f)
+    | ["HPP"; hx; hy; x; y] -> let (g, f) = hp_pt (zs hx) (zs hy) (zs x) (zs y) in print_endline (b2s g ^ b2s f)
     | "PCHK" :: mode :: op :: tn :: td :: en :: ed :: toks ->
       let o = get_op op in
       let p = { p_tn = zs tn; p_td = zs td; p_en = zs en; p_ed = zs ed } in
